@@ -44,12 +44,13 @@ structure Obj where
   inst : Inst
   dictStep : Option Slot
   userStep : Target
+  raiser : Option Nat := none    -- the depth of the class level whose step body raises `RuntimeError` (`cutAt`), if any
 deriving Repr, DecidableEq
 
 /-- `object.__new__` + whatever the subclass `__init__` does before `super().__init__()`:
     possibly `self.step = f` -/
-def Obj.alloc (h : Hier) (stopAt : Nat) (pre : Option Nat) : Obj :=
-  { inst := Inst.new h stopAt, dictStep := pre.map .fn, userStep := .chain }
+def Obj.alloc (h : Hier) (stopAt : Nat) (pre : Option Nat) (raiser : Option Nat := none) : Obj :=
+  { inst := Inst.new h stopAt, dictStep := pre.map .fn, userStep := .chain, raiser := raiser }
 
 /-- `Model.__init__` (the part C05 is about) -/
 def Obj.init (o : Obj) : Obj :=
@@ -57,9 +58,11 @@ def Obj.init (o : Obj) : Obj :=
     -- `self._user_step = self.step`: the instance `__dict__` entry if there is one, else the class's step
     userStep := (match o.dictStep with | some (.fn f) => .fn f | _ => .chain)
     -- `self.step = self._wrapped_step`
-    dictStep := some .wrapper }
+    dictStep := some .wrapper
+    raiser := o.raiser }
 
-def Obj.construct (h : Hier) (stopAt : Nat) (pre : Option Nat) : Obj := (Obj.alloc h stopAt pre).init
+def Obj.construct (h : Hier) (stopAt : Nat) (pre : Option Nat) (raiser : Option Nat := none) : Obj :=
+  (Obj.alloc h stopAt pre raiser).init
 
 structure BResult where
   obj : Obj
@@ -81,13 +84,19 @@ def Obj.call (o : Obj) (args : List Int) : BResult :=
   | some .wrapper =>
     -- `_wrapped_step`: `self.steps += 1`, then `self._user_step(*args)`
     match o.userStep with
-    | .chain => let r := callStep o.inst args; ⟨{ o with inst := r.1 }, r.2.1, [], r.2.2⟩
+    | .chain => let r := callStepR o.inst o.raiser args; ⟨{ o with inst := r.1 }, r.2.1, [], r.2.2⟩
     | .fn f => ⟨{ o with inst := { o.inst with steps := o.inst.steps + 1 } }, [], [⟨f, o.inst.steps + 1, args⟩], !raisesFn f⟩
   | some (.fn f) => ⟨o, [], [⟨f, o.inst.steps, args⟩], !raisesFn f⟩
   | none =>
     -- no instance attribute: the class's own `step`, called directly — nothing counts
-    let r := runChain o.inst.hier 0 args o.inst.steps
+    let r := cutAt o.raiser (runChain o.inst.hier 0 args o.inst.steps)
     ⟨{ o with inst := tick o.inst r.1.length }, r.1, [], r.2⟩
+
+/-- did the call end in the raising class body (`RuntimeError`, as opposed to the `TypeError` of a signature mismatch)? -/
+def BResult.bodyRaised (r : BResult) : Bool :=
+  match r.obj.raiser with
+  | some d => r.entries.any (·.depth == d)
+  | none => false
 
 inductive BOp where
   | call (args : List Int)
